@@ -341,6 +341,19 @@ func c11Run(e *core.Env) {
 			continue
 		}
 		cube := new(big.Int).Exp(big.NewInt(m), big.NewInt(3), nil)
+		// also with trailing zeros inside the coefficient (8.000000000000000): the cube is then far longer than 3p digits
+		if m < 400 || m%7 == 0 {
+			for _, kz := range []int{3, 6, 15} {
+				cz := new(big.Int).Mul(cube, ref.Pow10(kz))
+				x := FinBig(cz, int32(-kz), m%2 == 0)
+				e.State()
+				for _, p := range []uint32{1, 2, 3, 5, 9} {
+					cc := MkCtx(p, -6143, 6144, apd.RoundHalfEven, 0)
+					cls, triv, msg := c11Cbrt(x, cc)
+					report("Cbrt", x, cc, cls+"/trailing-zeros", triv, msg)
+				}
+			}
+		}
 		for _, j := range []int32{0, 1, -2} {
 			for _, neg := range []bool{false, true} {
 				x := FinBig(cube, 3*j, neg)
